@@ -125,5 +125,10 @@ def run(ck):
         ck.ok("I5.evict-all-keys", pu.where(steps[0]["l"]), "the loop variable is only advanced by ++m")
     else:
         ck.violation("I5.evict-all-keys", "I5|purgeEntriesByUrl|loop-step", pu.where(), "the method loop variable is modified by %s" % [E.key(e["x"]) for e in steps])
+    ck.rule("I6 the URL purged for a *relative* Location/Content-Location is built from a copy of the request URL whose path was changed through AnyP::Uri "
+            "mutators; every such mutator clears the cached canonical forms (touch()) after changing a component, otherwise tmpUrl.absolute() is still the request "
+            "URL and the named URL is never invalidated (shared with C30 U5)")
+    from .C30 import uri_cache_coherence
+    uri_cache_coherence(ck, ck.facts(["src/anyp/Uri.cc"], whole=False), rule="I6.relative-target-canonical")
     ck.assume("what Store::Controller::evictIfFound() removes across stores, Vary-keyed variants, sameUrlHosts()/urlIsRelative() internals, and replies that never "
               "reach Client::setFinalReply() are not analysed")
